@@ -63,6 +63,8 @@ pub struct Session {
     /// C14: payments for these hashes get stuck: (hash hex, "pay" | "waitsendpay")
     pub stuck: Vec<(String, &'static str)>,
     pub ping_seq: u64,
+    /// pay commands kept running on purpose: (connection, rpc id, pay id, hash)
+    pub slow_pays: Vec<(UnixStream, Value, u64, String)>,
 }
 
 #[derive(Clone, Copy, Debug, PartialEq)]
@@ -209,6 +211,7 @@ impl Session {
             hashes: vec![],
             stuck: vec![],
             ping_seq: 0,
+            slow_pays: vec![],
         };
         let slow = if valgrind.is_some() { 20 } else { 1 };
         s.send_doc(&json!({"jsonrpc": "2.0", "id": "gm", "method": "getmanifest", "params": {"allow-deprecated-apis": false}}), 0);
@@ -334,6 +337,15 @@ impl Session {
                 if at == "pay" {
                     // the pay command never returns
                     self.held.push(stream);
+                } else if at == "pay-slow" {
+                    // the pay command keeps running (no part yet) and is answered later by the test
+                    self.node.parts.pop();
+                    self.slow_pays.push((stream, id.clone(), pid, hx.clone()));
+                } else if at == "pay-drop" {
+                    // the connection dies after lightningd accepted the command; the command has
+                    // ended, its part stays pending (it resolves when the plugin waits on it)
+                    self.node.pays.iter_mut().filter(|p| p.id == pid).for_each(|p| p.running = false);
+                    let _ = stream.shutdown(std::net::Shutdown::Both);
                 } else {
                     // pay returns pending with its part still pending; the part never resolves
                     let pay = self.node.pays.iter().find(|p| p.id == pid).unwrap().clone();
@@ -382,6 +394,13 @@ impl Session {
             "waitsendpay" => match self.node.find_part(&params) {
                 None => write_rpc(stream, &id, Err(RpcErr::new(208, "never attempted"))),
                 Some(k) => {
+                    if self.node.waitsendpay_result(k).is_none() && self.stuck.iter().any(|(h, at)| *h == self.node.parts[k].hash_hex && *at == "pay-drop") {
+                        let hx = self.node.parts[k].hash_hex.clone();
+                        if let Some(pre) = self.preimages.get(&hx).copied() {
+                            self.node.parts[k].status = PartStatus::Complete;
+                            self.node.parts[k].preimage = Some(pre);
+                        }
+                    }
                     if self.node.waitsendpay_result(k).is_none() {
                         if let Some((_, completes)) = self.pay_script {
                             // leftover pending part: it resolves while the plugin waits on it
@@ -585,6 +604,21 @@ pub fn rec_of(node: &Node, hash_hex: &str) -> String {
 }
 
 impl Session {
+    /// finish a pay command that was kept running: one part, complete, answer `complete`
+    pub fn finish_slow_pays(&mut self) {
+        for (stream, id, pid, hx) in std::mem::take(&mut self.slow_pays) {
+            let pre = self.preimages.get(&hx).copied();
+            self.node.add_part(pid, 1000);
+            if let (Some(p), Some(pre)) = (self.node.parts.last_mut(), pre) {
+                p.status = PartStatus::Complete;
+                p.preimage = Some(pre);
+            }
+            let pay = self.node.pays.iter().find(|p| p.id == pid).unwrap().clone();
+            self.node.pays.iter_mut().filter(|p| p.id == pid).for_each(|p| p.running = false);
+            write_rpc(stream, &id, Ok(self.node.pay_response(&pay, "complete", false, pre)));
+        }
+    }
+
     /// R08a/R08b on the node's own state (exact: the node is single-threaded)
     pub fn check_state(&mut self, at: &str) {
         for hx in self.hashes.clone() {
